@@ -155,5 +155,115 @@ if truth_of_callback_values(E, Sym(z3.Int("i"), "int")) is not NotImplemented:
     bad += 1
     print("MISMATCH: the hook must leave other kinds to the engine")
 
-print("dict.fromkeys / dict.update (symbolic) / list[::-1] / truthiness of callback values:", f"models entail CPython's result on 40 random cases x 7 uses x {len(UNIVERSE)} keys ({undecided} consistency checks left `unknown` by z3)" if not bad else f"{bad} MISMATCHES")
+# --- fourth session: reversed() / list() over sequences of symbolic length (a symbolic list, the int list stored in a symbolic dict),
+#     extend / pop / += on such a stored list, collections.deque against the real deque on random operation sequences
+import collections
+
+
+def pinned(E, r, want, what):
+    """the symbolic list r is exactly the Python list `want` under the path condition"""
+    global bad
+    sol = z3.Solver()
+    sol.add(*E.pc)
+    ok = [z3.simplify(r.nz() == len(want))] + [z3.Select(r.cols[0], i) == w for i, w in enumerate(want)]
+    sol.add(z3.Not(z3.And(*ok)))
+    if sol.check() != z3.unsat:
+        bad += 1
+        print("MISMATCH:", what, want)
+
+
+def stored_list(E, vals, key, name):
+    """a symbolic dict of int lists whose entry `key` is pinned to vals; returns (dict, reference to the stored list)"""
+    d = PDict.fresh("intlist", name=name)
+    E.pc.append(z3.Select(d.dom, key))
+    E.pc.append(z3.Select(d.lens, key) == len(vals))
+    for i, v in enumerate(vals):
+        E.pc.append(z3.Select(z3.Select(d.val, key), i) == v)
+    return d, models.dict_get(E, d, key)
+
+
+rev, lst = models.BUILTIN_MODELS[reversed], models.BUILTIN_MODELS[list]
+for trial in range(40):
+    vals = [random.randint(0, 9) for _ in range(random.randint(0, 6))]
+    E = engine()
+    pinned(E, rev(E, [sym_list(E, vals, "src")], {}), list(reversed(vals)), "reversed(symbolic list)")
+    E = engine()
+    d, ref = stored_list(E, vals, 3, "cm")
+    pinned(E, rev(E, [ref], {}), list(reversed(vals)), "reversed(list stored in a symbolic dict)")
+    pinned(E, lst(E, [ref], {}), list(vals), "list(list stored in a symbolic dict)")
+    pinned(E, rev(E, [rev(E, [ref], {})], {}), list(vals), "reversed(reversed(..))")
+    more = [random.randint(0, 9) for _ in range(random.randint(0, 3))]
+    want = list(vals)
+    want.extend(more)
+    models.LIST_METHODS["extend"](E, ref, [PList(list(more))], {})
+    pinned(E, lst(E, [ref], {}), want, "stored list .extend")
+    if want:
+        E.trace, E.pos = [True], 0
+        got = models.LIST_METHODS["pop"](E, ref, [], {})
+        w = want.pop()
+        sol = z3.Solver()
+        sol.add(*E.pc)
+        sol.add(got.z != w)
+        if sol.check() != z3.unsat:
+            bad += 1
+            print("MISMATCH: stored list .pop()", want, w)
+        pinned(E, lst(E, [ref], {}), want, "stored list after .pop()")
+    if rev(engine(), [PList(list(vals))], {}).items != list(reversed(vals)):
+        bad += 1
+        print("MISMATCH concrete reversed", vals)
+
+dq_model = models.BUILTIN_MODELS[collections.deque]
+for trial in range(200):
+    init = [random.randint(0, 9) for _ in range(random.randint(0, 4))]
+    E = engine()
+    real, mine = collections.deque(init), dq_model(E, [PList(list(init))], {})
+    for step in range(random.randint(1, 12)):
+        op = random.choice(["append", "appendleft", "pop", "popleft", "extend", "extendleft", "clear", "len", "truth", "index"])
+        arg = [random.randint(0, 9) for _ in range(random.randint(0, 3))]
+        try:
+            want = {"append": lambda: real.append(arg), "appendleft": lambda: real.appendleft(arg), "pop": real.pop, "popleft": real.popleft,
+                    "extend": lambda: real.extend(arg), "extendleft": lambda: real.extendleft(arg), "clear": real.clear, "len": lambda: len(real),
+                    "truth": lambda: bool(real), "index": lambda: real[0]}[op]()
+        except IndexError:
+            want = IndexError
+        try:
+            if op in ("len", "truth", "index"):
+                got = {"len": lambda: len(mine.items), "truth": lambda: E.truth(mine), "index": lambda: models.getitem(E, mine, 0)}[op]()
+            else:
+                a = [] if op in ("pop", "popleft", "clear") else [arg if op in ("append", "appendleft") else PList(list(arg))]
+                got = models.method_of(E, mine, op).model(E, mine, a, {})
+        except Exception as e:  # ProgExc(IndexError)
+            got = getattr(e, "cls", type(e))
+        if got != want or list(real) != mine.items:
+            bad += 1
+            print("MISMATCH deque", init, op, arg, "->", got, want, mine.items, list(real))
+            break
+try:
+    models.method_of(engine(), PList([1]), "popleft")
+    bad += 1
+    print("MISMATCH: a plain list has no popleft")
+except Exception as e:
+    if getattr(e, "cls", None) is not AttributeError:
+        bad += 1
+        print("MISMATCH: list.popleft must be an AttributeError", e)
+
+# symbolic-length deque: appendleft / popleft
+for trial in range(30):
+    vals = [random.randint(0, 9) for _ in range(random.randint(1, 5))]
+    E = engine()
+    dq = dq_model(E, [sym_list(E, vals, "dq")], {})
+    x = random.randint(0, 9)
+    models.method_of(E, dq, "appendleft").model(E, dq, [x], {})
+    pinned(E, dq, [x] + vals, "symbolic deque appendleft")
+    E.trace, E.pos = [True], 0
+    got = models.method_of(E, dq, "popleft").model(E, dq, [], {})
+    sol = z3.Solver()
+    sol.add(*E.pc)
+    sol.add(got.z != x)
+    if sol.check() != z3.unsat:
+        bad += 1
+        print("MISMATCH symbolic deque popleft", vals)
+    pinned(E, dq, vals, "symbolic deque after popleft")
+
+print("dict.fromkeys / dict.update (symbolic) / list[::-1] / reversed / list / deque / stored-list extend, pop / truthiness of callback values:", f"models entail CPython's result on 40 random cases x 7 uses x {len(UNIVERSE)} keys ({undecided} consistency checks left `unknown` by z3)" if not bad else f"{bad} MISMATCHES")
 sys.exit(1 if bad else 0)
